@@ -52,6 +52,8 @@ func genEngSpecC03(r *R) engSpec {
 	}
 	sp.Shots = genShots(w, interval)
 	sp.Stalls = w.Draw(4) == 0
+	// a third of the runs take their ammo from a real provider (decoder task, pooled ammo objects, queue)
+	sp.RealProvider = []string{"", "", "", "uri", "json"}[w.Draw(5)]
 	return sp
 }
 
@@ -92,6 +94,7 @@ func checkAccounting(r *R, sp engSpec, res *engResult) {
 				r.Fail("ammo/acquired-twice", "ammo %v handed out again before it was released", e.Ammo)
 			}
 			s.acq++
+			s.shots = 0 // (a provider may recycle the object of a released item: shots are counted per hand-out)
 		case "release":
 			released++
 			s := get(e.Ammo)
